@@ -31,7 +31,7 @@ ASSUMPTIONS = [
     "sample(): the rng argument is the answer oracle (n<=3: all answers; shuffle answers: identity and reversal)",
 ]
 MU_POS = [-2.0, 0.0, 1.0, 3.0]
-MU_NEG = [None, -1.0, 0.5]
+MU_NEG = [None, -1.0, 0.5, 0.0, -0.0]
 SIGMA = [0.2, 0.5, 1.0, 3.0, 3.75]
 RATES = [1e-6, 1e-3, 0.01, 0.1, 0.25, 0.3, 0.5, 0.77, 0.9, 0.999, 1 - 1e-6]
 
@@ -114,10 +114,17 @@ def run(item, ctx, tier, seed):
                             if not np.allclose(rr, want_r, rtol=1e-9, atol=1e-12):
                                 ctx.fail("rate-is-normal-cdf", dict(case, metric=nm), observed=rr, expected=want_r)
                         # roc(): rates consistent with thresholds
-                        for kw in ({"fnr": rates}, {"fpr": rates}):
+                        for kw in ({"fnr": rates.copy()}, {"fpr": rates.copy()}):
                             ok, rc = guarded(ctx, "roc", dict(case, given=list(kw)), lambda: ds.roc(**kw))
                             ctx.tick()
                             if not ok:
+                                continue
+                            # the caller goes on using its grid array: the curve it already holds must not move
+                            held = (np.array(rc.fnr, copy=True), np.array(rc.fpr, copy=True), np.array(rc.thresholds, copy=True))
+                            list(kw.values())[0][...] = 0.123
+                            if not (np.array_equal(held[0], rc.fnr) and np.array_equal(held[1], rc.fpr) and np.array_equal(held[2], rc.thresholds)):
+                                ctx.fail("roc-result-independent-of-callers-array", dict(case, given=list(kw)), observed=[rc.fnr, rc.fpr],
+                                         expected=[held[0], held[1]])
                                 continue
                             th = np.asarray(rc.thresholds, dtype=float)
                             if not (np.allclose(np.asarray(rc.fnr), np.asarray(ds.fnr(th)), rtol=1e-12, atol=0)
